@@ -643,6 +643,55 @@ fn judge_request_position(placement: usize, inner: Option<usize>, o: &mut Outcom
     }
 }
 
+/// Names are matched as written: a template may declare `quantity`, `Quantity` or `QUANTITY` (lowering writes the
+/// first, a client's own IR any of them), a request may supply any subset of the three spellings, each under `args` or
+/// `env`, each with its own value. The argument map handed over holds the declared spelling with the value supplied
+/// under exactly that spelling, or nothing.
+fn judge_key_spelling(declared: usize, supplied: u32, in_env: u32, o: &mut Outcome) {
+    use tx3_tir::model::v1beta0 as tir;
+    const SPELLINGS: [&str; 3] = ["quantity", "Quantity", "QUANTITY"];
+    let mut tx = tirb::empty_tx();
+    tx.fees = tirb::assets(vec![tirb::lovelace(1)]);
+    tx.metadata.push(tir::Metadata { key: tir::Expression::Number(1), value: tirb::param(SPELLINGS[declared], Type::Int) });
+    let (bytes, _) = tx3_tir::encoding::to_bytes(&tx);
+    let mut args = serde_json::Map::new();
+    let mut env = serde_json::Map::new();
+    for (i, name) in SPELLINGS.iter().enumerate() {
+        if supplied & (1 << i) != 0 {
+            if in_env & (1 << i) != 0 { &mut env } else { &mut args }.insert(name.to_string(), json!(10 + i));
+        }
+    }
+    let expected: Vec<(String, String)> = if supplied & (1 << declared) != 0 { vec![(SPELLINGS[declared].to_string(), format!("Int({})", 10 + declared))] } else { vec![] };
+    let doc = json!({"tir": {"content": hex_enc(&bytes, false), "encoding": "hex", "version": "v1beta0"}, "args": args, "env": env});
+    o.evals += 1;
+    let Ok(req) = serde_json::from_value::<ResolveParams>(doc.clone()) else {
+        o.class("spelling:not-a-request-document");
+        return;
+    };
+    match panics::catch(|| parse_resolve_request(req).map(|(_, a)| a.iter().map(|(k, v)| (k.clone(), format!("{v:?}"))).collect::<Vec<_>>()).map_err(|e| e.to_string())) {
+        Err(p) => o.violate(Violation::new(format!("request-{}|spelling", p.signature()), p.message.clone()).with_detail(doc)),
+        Ok(Err(e)) => {
+            o.class("spelling:refused");
+            o.violate(Violation::new("request|well-formed-request-refused|key-spelling", format!("declared {}, supplied well-formed integers: {e}", SPELLINGS[declared])).with_detail(doc));
+        }
+        Ok(Ok(mut got)) => {
+            got.sort();
+            if got == expected {
+                o.class("spelling:declared-subset");
+            } else {
+                o.class("spelling:differs");
+                o.violate(
+                    Violation::new(
+                        "request|argument-map-is-not-the-declared-subset|key-spelling",
+                        format!("the template declares {}, the request supplies {:?}: the argument map is {got:?}, expected {expected:?}", SPELLINGS[declared], doc["args"].as_object().into_iter().chain(doc["env"].as_object()).flat_map(|m| m.keys().cloned()).collect::<Vec<_>>()),
+                    )
+                    .with_detail(doc),
+                );
+            }
+        }
+    }
+}
+
 impl Prop for C16 {
     fn id(&self) -> &'static str {
         "C16"
@@ -652,7 +701,7 @@ impl Prop for C16 {
          strings of every length 0..33 (thorough 40) as hex / 0xhex / hex envelope / base64 envelope (with the alias keys), 6 addresses as bech32 and \
          hex, utxo refs with txid length {1,32} x index {0,1,2^32-1}; rejection: every single-character edit (delete, insert / substitute one of \
          g x 0 # - space \" and the 2-, 3- and 4-byte characters é € 😀) at every position of every valid string encoding, and 42 JSON values of every kind, each against all 5 types; \
-         requests: 0..3 declared parameters x all 2^n splits between args and env x undeclared extras x 24 envelope variants (multi-byte content, version names with wide characters around byte 32, payloads nested 300 .. 300 000 deep), and a parameter supplied both as argument and in env (the argument counts); \
+         requests: 0..3 declared parameters x all 2^n splits between args and env x undeclared extras x 24 envelope variants (multi-byte content, version names with wide characters around byte 32, payloads nested 300 .. 300 000 deep), and a parameter supplied both as argument and in env (the argument counts); a template declaring quantity / Quantity / QUANTITY x every non-empty subset of the three spellings supplied x args / env (names match as written); \
          a request for every template that holds one value parameter in one position (every one-level IR context x 19 placements; the parameters held are found by an independent structural walk). Oracle: a strict \
          decoder written from the documented encodings (own hex, base64, bech32): from_json returns Ok(v) iff the text denotes v; requests yield \
          exactly the declared subset. Non-trivial = from_json / parse_resolve_request was executed and compared; distinct = (json text, type)."
@@ -679,6 +728,9 @@ impl Prop for C16 {
         }
         for placement in 0..crate::gen::tirgen::PLACEMENTS.len() {
             sink.case(|| json!({"kind": "request-positions", "placement": placement}));
+        }
+        for declared in 0..3usize {
+            sink.case(|| json!({"kind": "key-spelling", "declared": declared}));
         }
         for n in 0..=3usize {
             for split in 0..(1u32 << n) {
@@ -733,6 +785,18 @@ impl Prop for C16 {
                     judge_request_position(placement, Some(inner), &mut o);
                 }
                 o.key(hash64(&("positions", placement)));
+            }
+            "key-spelling" => {
+                let declared = case["declared"].as_u64().unwrap_or(0) as usize;
+                for supplied in 1..8u32 {
+                    for in_env in 0..8u32 {
+                        if in_env & !supplied != 0 {
+                            continue;
+                        }
+                        judge_key_spelling(declared, supplied, in_env, &mut o);
+                        o.key(hash64(&("spelling", declared, supplied, in_env)));
+                    }
+                }
             }
             "requests" => {
                 let n = case["params"].as_u64().unwrap_or(0) as usize;
